@@ -383,6 +383,29 @@ def stringsRepeat (E : Env) (s : Bytes) (count : Int) : Res Val :=
     | .err e => .err e
     | .panic m => .panic m
 
+/-- the tail of `pad` once `diff > 0` and the pad string are known -/
+def padCont (E : Env) (s : Bytes) (padLen diff : Int) (left : Bool) (padWith : Bytes) : Res Val :=
+  -- r := (diff-len(padWith))/len(padWith) + 2
+  match goDiv (wrap64 (diff - padWith.length)) padWith.length with
+  | .err e => .err e
+  | .panic m => .panic m
+  | .ok q =>
+    let r := wrap64 (q + 2)
+    if r ≤ 0 then .ok (.str s)
+    else
+      match libGrow E padLen with                   -- sb.Grow(padLen)
+      | .err e => .err e
+      | .panic m => .panic m
+      | .ok () =>
+        match libRepeat E padWith r with            -- strings.Repeat(padWith, r)
+        | .err e => .err e
+        | .panic m => .panic m
+        | .ok rep =>
+          match sliceTo rep diff with               -- [:diff]
+          | .err e => .err e
+          | .panic m => .panic m
+          | .ok p => .ok (.str (if left then p ++ s else s ++ p))
+
 /-- `pad(c, left)` of stdlib/strings (after the repair) -/
 def pad (E : Env) (c : Call) (left : Bool) : Res Val :=
   let size := c.len
@@ -405,35 +428,14 @@ def pad (E : Env) (c : Call) (left : Bool) : Res Val :=
           else if padLen ≤ s.length then .ok (.str s)
           else
             let diff := wrap64 (padLen - s.length)
-            let cont (padWith : Bytes) : Res Val :=
-              -- r := (diff-len(padWith))/len(padWith) + 2
-              match goDiv (wrap64 (diff - padWith.length)) padWith.length with
-              | .err e => .err e
-              | .panic m => .panic m
-              | .ok q =>
-                let r := wrap64 (q + 2)
-                if r ≤ 0 then .ok (.str s)
-                else
-                  match libGrow E padLen with                   -- sb.Grow(padLen)
-                  | .err e => .err e
-                  | .panic m => .panic m
-                  | .ok () =>
-                    match libRepeat E padWith r with            -- strings.Repeat(padWith, r)
-                    | .err e => .err e
-                    | .panic m => .panic m
-                    | .ok rep =>
-                      match sliceTo rep diff with               -- [:diff]
-                      | .err e => .err e
-                      | .panic m => .panic m
-                      | .ok p => .ok (.str (if left then p ++ s else s ++ p))
             if size > 2 then
               match c.get 2 with
               | .err e => .err e
               | .panic m => .panic m
               | .ok a2 =>
                 let padWith := E.toStr a2
-                if padWith.length = 0 then .ok (.str s) else cont padWith
-            else cont [32]
+                if padWith.length = 0 then .ok (.str s) else padCont E s padLen diff left padWith
+            else padCont E s padLen diff left [32]
 
 /-- shape shared by `replaceFunc` (lo=3), `newSplitFunc` (lo=2): `size != lo && size != lo+1`,
     reads 0..lo-1 through `String()`, optional `ToGoInt(c.Get(lo))`. -/
